@@ -1,16 +1,24 @@
 /-
   Model/Range.lean — `IntoParallelSource::generate_iterator(index, peers)` for integer ranges
-  (src/operator/source/parallel_iterator.rs:27-73), with the exact machine arithmetic of a build with
-  overflow checks (debug profile, which is what the harness and the test-suite use):
+  (src/operator/source/parallel_iterator.rs:27-78, as of the fix commit ebec77c), with the exact machine
+  arithmetic of a build with overflow checks (debug profile, which is what the harness and the test-suite
+  use):
 
-  * `impl IntoParallelSource for Range<u64>` (lines 27-40): `u64` subtraction / multiplication panic on
-    overflow, `saturating_add` clamps at `u64::MAX`;
-  * `impl_into_parallel_source_range!($t)` (lines 42-62) for u8 u16 u32 usize i8 i16 i32 i64 isize:
-    everything is computed in `i64` (`as i64` casts — a wrapping reinterpretation for `usize` — checked
-    `-`/`*`, `saturating_add`, truncating `/`), the two bounds are converted back with `try_into().unwrap()`.
+  * `impl IntoParallelSource for Range<u64>` (lines 27-42): `saturating_sub`, `saturating_add` (clamped at
+    `u64::MAX`), checked `peers - 1` and `index * chunk_size`;
+  * `impl_into_parallel_source_range!($t)` (lines 44-68) for u8 u16 u32 usize i8 i16 i32 i64 isize:
+    everything is computed in `i128` (`as i128` is value preserving for every one of these types and for
+    the `u64` index / peers), `saturating_mul` / `saturating_add` clamp at the `i128` bounds, `/` is the
+    truncating division, the two bounds are converted back with `try_into().unwrap()`.
 
   All integers are modelled as `Int`; the value of a Rust `Range { start, end }` is `Res.range start end`
   (it yields `start, start+1, …, end-1`, nothing when `end ≤ start`).
+
+  History (not modelled any more): before ebec77c the macro computed in `i64` without clamping and the
+  `u64` impl used a plain subtraction; `(10u8..0).generate_iterator(1,4)` returned `9..10`,
+  `(5u64..3)` panicked on the subtraction (F1), `(2^63..2^63+10usize)` panicked in `try_into` (F7) and
+  `(250u8..255).generate_iterator(6,8)` panicked because the start offset 256 does not fit `u8` (F10).
+  These four inputs are the fixed first cases of every `range` harness run.
 -/
 namespace Noir.Range
 
@@ -18,6 +26,8 @@ namespace Noir.Range
 inductive Res where
   /-- arithmetic overflow panic (`attempt to subtract/multiply with overflow`) -/
   | overflow
+  /-- `attempt to divide by zero` -/
+  | divzero
   /-- `try_into().unwrap()` on a value that does not fit -/
   | unwrap
   /-- the returned `Range { start, end }` -/
@@ -27,27 +37,32 @@ inductive Res where
 def U64_MAX : Int := 18446744073709551615   -- 2^64 - 1
 def I64_MAX : Int := 9223372036854775807    -- 2^63 - 1
 def I64_MIN : Int := -9223372036854775808   -- -2^63
+def I128_MAX : Int := 170141183460469231731687303715884105727    -- 2^127 - 1
+def I128_MIN : Int := -170141183460469231731687303715884105728   -- -2^127
 
 /-- `a.saturating_add(b)` for an integer type with bounds `[lo, hi]` -/
 def satAdd (lo hi a b : Int) : Int := max lo (min hi (a + b))
 
-/-- `impl IntoParallelSource for Range<u64>` (parallel_iterator.rs:30-39). `s`,`e` ∈ [0, 2^64). -/
+/-- `a.saturating_mul(b)` for an integer type with bounds `[lo, hi]` -/
+def satMul (lo hi a b : Int) : Int := max lo (min hi (a * b))
+
+/-- `impl IntoParallelSource for Range<u64>` (parallel_iterator.rs:30-41). `s`,`e` ∈ [0, 2^64),
+    `index`, `peers` are `u64` values. -/
 def genU64 (s e : Int) (index peers : Nat) : Res :=
-  -- :31 `let n = self.end - self.start;`  (u64 subtraction: panics when end < start)
-  if e < s then .overflow else
-  let n := e - s
-  -- :32 `(n.saturating_add(peers - 1)) / peers`  (`peers - 1` panics for peers = 0)
+  -- :32 `let n = self.end.saturating_sub(self.start);`
+  let n := max 0 (e - s)
+  -- :33 `(n.saturating_add(peers - 1)) / peers`  (`peers - 1` panics for peers = 0)
   if peers = 0 then .overflow else
   let chunk := (satAdd 0 U64_MAX n ((peers : Int) - 1)) / (peers : Int)
-  -- :33 `index * chunk_size` (checked multiplication)
+  -- :34 `index * chunk_size` (checked multiplication)
   let prod := (index : Int) * chunk
   if prod > U64_MAX then .overflow else
   let start := satAdd 0 U64_MAX s prod
-  -- :34-36
+  -- :35-37
   let end_ := max (min (satAdd 0 U64_MAX start chunk) e) s
   .range start end_
 
-/-- The integer types the macro is instantiated for (parallel_iterator.rs:64-73). -/
+/-- The integer types the macro is instantiated for (parallel_iterator.rs:70-78). -/
 inductive Ty where
   | u8 | u16 | u32 | usize | i8 | i16 | i32 | i64 | isize
   deriving Repr, DecidableEq
@@ -69,40 +84,30 @@ def Ty.hi : Ty → Int
   | .i32 => 2147483647
   | .i64 | .isize => I64_MAX
 
-/-- `x as i64` for a value `x` of type `t` (only `usize` values ≥ 2^63 change: two's complement wrap). -/
-def Ty.asI64 (_t : Ty) (x : Int) : Int := if x > I64_MAX then x - 18446744073709551616 else x
+/-- `v.try_into::<t>()` for an `i128` value: `none` = `Err(TryFromIntError)`. -/
+def Ty.fromI128 (t : Ty) (v : Int) : Option Int := if t.lo ≤ v ∧ v ≤ t.hi then some v else none
 
-/-- `v.try_into::<t>()` for an `i64` value: `none` = `Err(TryFromIntError)`. -/
-def Ty.fromI64 (t : Ty) (v : Int) : Option Int := if t.lo ≤ v ∧ v ≤ t.hi then some v else none
-
-/-- checked `i64` result: `none` when outside the `i64` range (overflow panic) -/
-def chkI64 (v : Int) : Option Int := if I64_MIN ≤ v ∧ v ≤ I64_MAX then some v else none
-
-/-- `impl_into_parallel_source_range!(t)` (parallel_iterator.rs:46-59). `s`,`e` ∈ [t.lo, t.hi]. -/
+/-- `impl_into_parallel_source_range!(t)` (parallel_iterator.rs:49-65). `s`,`e` ∈ [t.lo, t.hi];
+    `index`, `peers` are `u64` values, so `index as i128`, `peers as i128`, `self.start as i128`,
+    `self.end as i128` are the values themselves and `last - first`, `n + peers - 1` cannot overflow `i128`
+    (|last - first| < 2^65, peers < 2^64). -/
 def genMacro (t : Ty) (s e : Int) (index peers : Nat) : Res :=
-  -- :47-48 `index.try_into().unwrap()`, `peers.try_into().unwrap()` (u64 → i64)
-  if (index : Int) > I64_MAX then .unwrap else
-  if (peers : Int) > I64_MAX then .unwrap else
-  let s64 := t.asI64 s
-  let e64 := t.asI64 e
-  -- :49 `let n = self.end as i64 - self.start as i64;`
-  match chkI64 (e64 - s64) with
-  | none => .overflow
-  | some n =>
-    -- :50 `(n.saturating_add(peers - 1)) / peers`  (i64 division truncates towards zero; `/ 0` panics)
-    if peers = 0 then .overflow else
-    let chunk := Int.tdiv (satAdd I64_MIN I64_MAX n ((peers : Int) - 1)) (peers : Int)
-    -- :51 `index * chunk_size`
-    match chkI64 ((index : Int) * chunk) with
-    | none => .overflow
-    | some prod =>
-      let start := satAdd I64_MIN I64_MAX s64 prod
-      -- :52-54
-      let end_ := max (min (satAdd I64_MIN I64_MAX start chunk) e64) s64
-      -- :56 `(start.try_into().unwrap(), end.try_into().unwrap())`
-      match t.fromI64 start, t.fromI64 end_ with
-      | some a, some b => .range a b
-      | _, _ => .unwrap
+  -- :51-53
+  let first := s
+  let last := e
+  -- :55 `let n = (last - first).max(0);`
+  let n := max (last - first) 0
+  -- :56 `(n + peers - 1) / peers`  (i128 division truncates towards zero; `/ 0` panics)
+  if peers = 0 then .divzero else
+  let chunk := Int.tdiv (n + (peers : Int) - 1) (peers : Int)
+  -- :58-61 `first.saturating_add(index.saturating_mul(chunk_size)).min(last).max(first)`
+  let start := max (min (satAdd I128_MIN I128_MAX first (satMul I128_MIN I128_MAX (index : Int) chunk)) last) first
+  -- :62 `start.saturating_add(chunk_size).min(last).max(start)`
+  let end_ := max (min (satAdd I128_MIN I128_MAX start chunk) last) start
+  -- :64 `(start.try_into().unwrap(), end.try_into().unwrap())`
+  match t.fromI128 start, t.fromI128 end_ with
+  | some a, some b => .range a b
+  | _, _ => .unwrap
 
 /-- The items a result yields (`Range::next` until `None`): `start, …, end-1`. -/
 def upTo (a : Int) : Nat → List Int
